@@ -36,7 +36,8 @@ function withModule(code, env, body) {
   let result;
   try {
     try {
-      const fn = new Function('__import', '__env', '__out', '"use strict";\n' + code);
+      // a hashbang line is only legal at the very start of a file, not inside a function body
+      const fn = new Function('__import', '__env', '__out', '"use strict";\n' + String(code).replace(/^#![^\n]*\n/, ''));
       fn(__import, env, out);
     } catch (e) {
       loadError = e;
